@@ -228,7 +228,21 @@ impl Property for C08 {
         let hist = hist.unwrap();
         rep.class("accepted");
         rep.class(["path:histogram", "path:vec-child", "path:local"][path]);
-        let local = if path == 2 { Some(hist.local()) } else { None };
+        // (a quarter of the local handles started life on another histogram - one bound - and were pointed at this one with
+        // Clone::clone_from, which leaves a handle that is in every respect a fresh local of this histogram)
+        let local = if path == 2 {
+            if src.chance(64) {
+                let other = Histogram::with_opts(HistogramOpts::new("other", "h").buckets(vec![0.5])).unwrap();
+                let mut l = other.local();
+                l.clone_from(&hist.local());
+                rep.class("local-handle-re-targeted-with-clone_from");
+                Some(l)
+            } else {
+                Some(hist.local())
+            }
+        } else {
+            None
+        };
         let mut model = Model { bounds: bounds.clone(), obs: vec![], sum: 0.0 };
         let mut pending: Vec<f64> = vec![];
         let nops = src.below(41);
